@@ -178,12 +178,12 @@ package vuego
 
 //@ func (s *Stack) EnvMap() (r)
 //@   modifies nothing
-//@   ensures C08+C17.agree: fresh(r) && forall k string :: ((k in r) == envHas(s, k, len(s.stack))) && ((k in r) ==> r[k] == envGet(s, k, len(s.stack)))
+//@   ensures C08+C17.agree: fresh(r) && forall k string :: ((k in r) == old(envHas(s, k, len(s.stack)))) && ((k in r) ==> r[k] == old(envGet(s, k, len(s.stack))))
 //@   loop 0 invariant C17.env.bounds: 0 <= i && i <= len(s.stack) && fresh(result) && result != nil
-//@   loop 0 invariant C17.env.outer: forall k string :: ((k in result) == envHas(s, k, i)) && ((k in result) ==> result[k] == envGet(s, k, i))
+//@   loop 0 invariant C17.env.outer: forall k string :: ((k in result) == old(envHas(s, k, i))) && ((k in result) ==> result[k] == old(envGet(s, k, i)))
 //@   loop 1 invariant C17.env.bounds1: 0 <= i && i < len(s.stack) && fresh(result) && result != nil
-//@   loop 1 invariant C17.env.inner: forall k string :: (visited(k) ==> (k in s.stack[i]) && (k in result) && result[k] == s.stack[i][k]) &&
-//@       (!visited(k) ==> ((k in result) == envHas(s, k, i)) && ((k in result) ==> result[k] == envGet(s, k, i)))
+//@   loop 1 invariant C17.env.inner: forall k string :: (visited(k) ==> old(k in s.stack[i]) && (k in result) && result[k] == old(s.stack[i][k])) &&
+//@       (!visited(k) ==> ((k in result) == old(envHas(s, k, i))) && ((k in result) ==> result[k] == old(envGet(s, k, i))))
 
 //@ func (s *Stack) Copy() (c)
 //@   modifies nothing
